@@ -46,6 +46,7 @@ type Harness struct {
 	Native   bool
 	Inverse  [][2]string // lemma f(g(x)) == x: {f, g}
 	Opaque   []string    // formatting functions: result "?" when an argument is symbolic
+	StubDyn  [][]string  // caller fn, harness func, callee-name prefixes that are NOT redirected
 	Notes    []string
 }
 
@@ -69,6 +70,14 @@ type Config struct {
 	inverseG       map[string]string // g -> f
 	lemmas         []string
 	opaque         map[string]bool
+	stubDyn        map[string]*dynStub
+}
+
+// dynStub redirects calls of function VALUES made directly by one function
+// (e.g. the innermost handler invoked by a middleware closure).
+type dynStub struct {
+	target *ssa.Function
+	except []string
 }
 
 func (c *Config) skipInit(path string) bool { return c.skipInitPkgs[path] }
@@ -149,6 +158,8 @@ func parseHarness(id string, dir string) (*Harness, error) {
 				h.Reach = append(h.Reach, fields[1:]...)
 			case "const":
 				h.Consts = append(h.Consts, [3]string{fields[1], fields[2], fields[3]})
+			case "stubdyn":
+				h.StubDyn = append(h.StubDyn, fields[1:])
 			case "opaque":
 				h.Opaque = append(h.Opaque, strings.Join(fields[1:], " "))
 			case "inverse":
@@ -311,6 +322,18 @@ func loadProgram(h *Harness, cfg *Config) error {
 		cfg.inverseF[iv[0]] = iv[1]
 		cfg.inverseG[iv[1]] = iv[0]
 		cfg.lemmas = append(cfg.lemmas, fmt.Sprintf("%s(%s(x)) == x", iv[0], iv[1]))
+	}
+	cfg.stubDyn = map[string]*dynStub{}
+	for _, sd := range h.StubDyn {
+		if len(sd) < 2 {
+			return fmt.Errorf("stubdyn needs a caller and a harness function")
+		}
+		f := find(sd[1])
+		if f == nil {
+			return fmt.Errorf("stubdyn function %s not found", sd[1])
+		}
+		cfg.stubDyn[sd[0]] = &dynStub{target: f, except: sd[2:]}
+		cfg.stubNames = append(cfg.stubNames, "function values called by "+sd[0]+" -> "+sd[1])
 	}
 	cfg.stubs = map[string]*ssa.Function{}
 	for _, sd := range h.StubDecl {
